@@ -152,7 +152,7 @@ func evalC17(c *Ctx, cs *TGCase, vr map[string]*gen.VRes) (string, []int) {
 			c.Inconclusive("driver timed out")
 			return "", nil
 		}
-		toRef := map[int]int{}  // printed state -> reference state
+		toRef := map[int]int{}   // printed state -> reference state
 		fromRef := map[int]int{} // reference state -> printed state
 		bind := func(printed, refst int) string {
 			if p, ok := toRef[printed]; ok && p != refst {
